@@ -249,12 +249,12 @@ def FSt.result (s : FSt) : Option Rat :=
 /-- `float(str)` for finite decimal literals (`None` = `ValueError`; `inf`, `nan`, `1_0` are not modelled) -/
 def pyFloat (t : Text) : Option Rat := (t.foldl fstep {}).result
 
-/-- `re.sub(r"(\d)([-+])", r"\1E\2", s)` -/
+/-- `re.sub(r"([\d.])([-+])", r"\1E\2", s)` (repaired: a significand may end in a dot) -/
 def insertE : Text → Text
   | [] => []
   | [c] => [c]
   | c :: c' :: r =>
-    if c.isDigit && (c' = '+' || c' = '-') then c :: 'E' :: c' :: insertE r
+    if (c.isDigit || c = '.') && (c' = '+' || c' = '-') then c :: 'E' :: c' :: insertE r
     else c :: insertE (c' :: r)
 
 /-- `utilities.py:fortran_float` (`None` = `ValueError`) -/
